@@ -1,5 +1,12 @@
 import Blue.Generated.Consts
 import Blue.Model.BitVecCf
+import Blue.Model.RrrWord
+import Blue.Model.RrrCf
+import Blue.Model.Sampled
+import Blue.Model.Sigma
+import Blue.Model.BvSparse
+import Blue.Proofs.BvSparse
+import Blue.Proofs.RrrLayout
 /-! Constants of `scrunch` regenerated from the Rust source, tied to the model (C19).  Kept apart
     from the other properties' ties so that an edit to these constants breaks only C19's proof
     obligations. -/
@@ -7,5 +14,43 @@ namespace Blue.ConstsTie
 
 /-- `PARAM_WORDS_PER_BLOCK` of `scrunch/src/bit_vector/cf_rrr.rs` -/
 theorem scrunch_cf_rrr_block : Blue.BitVec.cfWordsPerBlock = Blue.Generated.scrunchCfRrrWordsPerBlock := by decide
+
+/-- `PARAM_SELECT_SAMPLE` of cf_rrr.rs (`PARAM_WORDS_PER_BLOCK * 63`) -/
+theorem scrunch_cf_rrr_sample : Blue.RrrCf.sampleC = Blue.Generated.scrunchCfRrrSelectSample := by decide
+
+/-- the binomial table `K` of `scrunch/src/bit_vector/rrr.rs`: the model's Pascal rows are the
+    literal rows of the source (row `n` has `n + 1` entries) -/
+theorem scrunch_rrr_K : Blue.Rrr.kTab.flatten = Blue.Generated.scrunchRrrKFlat
+    ∧ Blue.Rrr.kTab.map List.length = Blue.Generated.scrunchRrrKRowLens := by decide +kernel
+
+/-- the offset widths `L` of rrr.rs -/
+theorem scrunch_rrr_L : Blue.Rrr.lTab = Blue.Generated.scrunchRrrL := by decide +kernel
+
+/-- `WORD` (63-bit words per block) and `SELECT` (select sample) of `rrr::BitVector::construct_from_words`,
+    as stored in every constructed vector -/
+theorem scrunch_rrr_params (bits : List Bool) :
+    (Blue.Rrr.construct bits).word = Blue.Generated.scrunchRrrWord
+    ∧ (Blue.Rrr.construct bits).select = Blue.Generated.scrunchRrrSelect :=
+  ⟨Blue.Rrr.construct_word bits, Blue.Rrr.construct_select bits⟩
+
+/-- `SA::construct*(6, …)` in `PsiDocument::construct` (all call sites agree) -/
+theorem scrunch_sa_sampling : Blue.Sampled.saSampling = Blue.Generated.scrunchSaSampling := by decide
+
+/-- the branch factors of the three `from_indices` call sites the index model abstracts -/
+theorem scrunch_branches : Blue.Sampled.presentBranch = Blue.Generated.scrunchSampledArrayBranch
+    ∧ Blue.Sigma.columnsBranch = Blue.Generated.scrunchSigmaBranch
+    ∧ Blue.Sampled.boundaryBranch = Blue.Generated.scrunchBoundaryBranch
+    ∧ Blue.BvSparse.constructBranch = Blue.Generated.scrunchSparseConstructBranch := by decide
+
+/-- the branch factors `from_indices` admits (`!(4..256).contains(&branch)` is refused) -/
+theorem scrunch_sparse_branch_bounds (branch len : Nat) (I : List Nat) :
+    Blue.Generated.scrunchSparseBranchBounds = [4, 256]
+    ∧ ((Blue.BvSparse.build branch len I).isSome ↔
+        (4 ≤ branch ∧ branch < 256) ∧ (I = [] ∨ (I.getLastD 0 ≤ len ∧ Blue.BvSparse.Sorted I))) :=
+  ⟨by decide, Blue.BvSparse.build_isSome_iff branch len I⟩
+
+/-- `DENSE_COUNT_LIMIT` and the initial length of `dense_counts` in `Sigma::construct` -/
+theorem scrunch_sigma_dense : [Blue.Sigma.denseLimit, Blue.Sigma.denseInit]
+    = [Blue.Generated.scrunchSigmaDenseLimits.getD 0 0, Blue.Generated.scrunchSigmaDenseLimits.getD 2 0] := by decide
 
 end Blue.ConstsTie
